@@ -48,6 +48,7 @@ type WCase struct {
 	Mlg   float64     `json:"mlg,omitempty"`
 	LE    [][2]float64 `json:"le,omitempty"` // logged (argument, value) pairs of special.LogErfc
 	Clone bool        `json:"clone,omitempty"`
+	Pdf   bool        `json:"pdf,omitempty"` // skew normal / matrix families: the Pdf method instead of LogPdf
 	// ---- parameter layout of composite distributions (param.go)
 	Level   int    `json:"level,omitempty"` // 0 scalar, 1 vector, 2 matrix
 	NR      int    `json:"nr,omitempty"`
@@ -482,6 +483,9 @@ func genWCase(k int, r *Rng) Case {
 		w = genSkewCase(k/4, r)
 	default:
 		w = genIWCase(k/4, r)
+	}
+	if (w.Kind == "Skew" || w.Kind == "IW" || w.Kind == "NIW") && (k/4)%3 == 2 {
+		w.Pdf, fn = true, "Pdf" // round 6: the Pdf methods of the skew normal and the matrix families
 	}
 	o, inc := wEvalAll(&w, fn)
 	valid := "valid-params:"
